@@ -3,6 +3,7 @@ import GraafVerif.Driver.Common
 import GraafVerif.Driver.ReprDesc
 import GraafVerif.Model.Query
 import GraafVerif.Model.QueryFast
+import GraafVerif.Model.QueryIter
 import GraafVerif.Spec.Query
 /-!
 Driver handlers for property C02 (ops of `harness/src/ops/c02.rs`):
@@ -337,8 +338,55 @@ def hCycleWalks : Handler := fun t args observed =>
     pure { v with tags := v.tags ++ [if len ≥ 4096 then "walk-len>=4096" else "walk-len<4096"] }
   | _ => none
 
+/-! ## q_iter: `k` × `next()`, then a fold-based consumer, on one iterator value
+
+Model: `Iter.observe` on the list the model query yields.  Oracle: `Iter.observe` on the DEFINED sequence
+(`Spec.*` on the implementation's own observation; for `arcs()` on the implementation's own fully
+collected `arcs()`): by `Proof/QueryIter.lean: observe_eq` that is `take k` / `drop k` + the list consumer. -/
+def encObs {α : Type} (enc : α → V) (o : Iter.Obs α) : V :=
+  .l [.l (o.taken.map enc), V.ofNat o.count, (match o.last with | none => .a "none" | some x => enc x),
+      .l (o.rest.map enc), V.ofNat o.sum, V.ofNat o.skipCount]
+
+def recNat (l : List Nat) (k : Nat) : V := encObs V.ofNat (Iter.observe id l k)
+def recPair (l : List (Nat × Nat)) (k : Nat) : V := encObs V.ofPair (Iter.observe (fun p => p.1 + p.2) l k)
+def recNatO (l : Option (List Nat)) (k : Nat) : V := match l with | none => panicV | some l => recNat l k
+def recPairO (l : Option (List (Nat × Nat))) (k : Nat) : V := match l with | none => panicV | some l => recPair l k
+
+def partIter (m : Inst) (ob : Obs) (t : Nat) (ks ids : List Nat) (observedRecs : List V) : Part :=
+  let q := m.core
+  let G := ob.G
+  let modelFor (k : Nat) : V :=
+    .l ([recPair q.arcs k, recNat q.vertices k, recNatO (m.degseq t) k, recNatO q.indegreeSequence k,
+         recNatO q.outdegreeSequence k, recPairO q.semidegreeSequence k, recNatO q.sinks k, recNat q.sources k] ++
+        ids.flatMap (fun v => [recNat (q.inNeighbors v) k, recNatO (q.outNeighbors v) k]))
+  let wantFor (k : Nat) (obsRec : V) : V :=
+    let obsList := obsRec.list?.getD []
+    .l ([recPair ob.arcs k, recNat G.verts k, recNat (degreeSequenceOracle ob) k, recNat (Spec.indegreeSequence G) k,
+         recNat (Spec.outdegreeSequence G) k, recPair (Spec.semidegreeSequence G) k, recNat (Spec.sinks G) k,
+         recNat (Spec.sources G) k] ++
+        (ids.zipIdx.flatMap (fun (v, i) =>
+          [recNat (Spec.inNeighbors G v) k,
+           if G.verts.contains v then recNat (Spec.outNeighbors G v) k
+           else obsList[8 + 2 * i + 1]?.getD (.a "missing")])))   -- outside V: no demand on out_neighbors
+  let anyShort := (ks.any (fun k => k > 0)) && ob.narcs ≥ 2
+  { names := ks.map (fun k => s!"iterators advanced {k}x with next() then consumed (records: arcs vertices degseq indegseq outdegseq semidegseq sinks sources, then in/out_neighbors per id; fields: taken count last rest sum skipcount)")
+    model := ks.map modelFor
+    want := (ks.zipIdx.map (fun (k, i) => wantFor k (observedRecs[i]?.getD (.l []))))
+    tags := [s!"threads={min t 17}", if anyShort then "iter-advanced" else "iter-fresh-only",
+             if ob.nverts * ob.nverts > 64 then "cells>64" else "cells<=64"] }
+
+def hIter : Handler := fun t args observed =>
+  match args, observed with
+  | [dv, ksV, idsV], obsV :: rest => do
+    let d ← GDesc.parse dv
+    let ks ← parseIds ksV
+    let ids ← parseIds idsV
+    let ob ← parseObs obsV
+    pure (finish d obsV ob observed (some fun m => [partIter m ob t ks ids (rest.take ks.length)]))
+  | _, _ => none
+
 def handlers : List (String × Handler) :=
-  [("q_cyclewalks", hCycleWalks), ("q_global", hGlobal), ("q_degseq", hDegseq), ("q_vertex", hVertex), ("q_pairs", hPairs),
+  [("q_iter", hIter), ("q_cyclewalks", hCycleWalks), ("q_global", hGlobal), ("q_degseq", hDegseq), ("q_vertex", hVertex), ("q_pairs", hPairs),
    ("q_walks", hWalks), ("q_remove", hRemove), ("q_all", hAll)]
 
 end GraafVerif.Driver.H02
